@@ -10,7 +10,8 @@
                  bound to one more slot; covered by L0 and tail — they quantify over all expressions —
                  and singled out in C01_simulation_rest)                                        PROVED
            set  (set! / boxes for mutated captured variables)                                  NOT PROVED (no theorem stated)
-   Not covered by any theorem: MOVEREADLOCAL (last-usage moves), the CALLGLOBAL peephole, the
+   Not covered by any theorem: MOVEREADLOCAL (last-usage moves), whole-program equivalence of the CALLGLOBAL
+   peephole (only the step-level fusion lemmas C01_callglobal_fusion / _tail_fusion), the
    source-to-source passes in front of code generation; these are tied by the differential check only. *)
 From Coq Require Import String.
 From Coq Require Import ZArith List Bool Lia Arith.
@@ -137,6 +138,37 @@ Theorem C01_simulation_rest : forall limit tco MG ps r body r' clo vs mvs xs ws 
     Forall2 (vrel tco) ws mws /\
     R1 tco (bind xs ws r') (body_cenv xs fvs) mws caps.
 Proof. exact rest_entry. Qed.
+
+(* The CALLGLOBAL super-instruction (program.rs: PUSH g ; FUNC n => CALLGLOBAL g ; FUNC n): one step of the
+   fused form does what the two steps of the pair do — same error, or the same next state up to the
+   instruction array it continues in / returns to.  For the tail pair with a closure callee the two forms
+   reach the same state (the frame is reused, no return address is recorded). *)
+Theorem C01_callglobal_fusion : forall limit C C' pc g n st fs MG,
+  nth_error C pc = Some (PUSH g) -> nth_error C (S pc) = Some (FUNC n) ->
+  nth_error C' pc = Some (CALLGLOBAL g) -> nth_error C' (S pc) = Some (FUNC n) ->
+  match vm_step limit (mkVM C pc st fs MG) with
+  | SErr k => vm_step limit (mkVM C' pc st fs MG) = SErr k
+  | SNext s1 =>
+      match vm_step limit s1, vm_step limit (mkVM C' pc st fs MG) with
+      | SErr k, r => r = SErr k
+      | SStuck, r => r = SStuck
+      | SNext a, SNext b =>
+          (code a = C /\ b = with_code C' a) \/
+          (exists fr, frames a = fr :: fs /\ f_ret_code fr = C /\
+                      b = mkVM (code a) (ip a) (stack a) (mkFrame (f_sp fr) (f_fn fr) (f_ret_ip fr) C' :: fs) (globals a))
+      | _, _ => False
+      end
+  | _ => False
+  end.
+Proof. exact callglobal_fusion. Qed.
+
+Theorem C01_callglobaltail_fusion : forall limit C C' pc g n st fs MG arity rest body caps,
+  nth_error C pc = Some (PUSH g) -> nth_error C (S pc) = Some (TAILCALL n) ->
+  nth_error C' pc = Some (CALLGLOBALTAIL g) -> nth_error C' (S pc) = Some (TAILCALL n) ->
+  Core.lookup g MG = Some (MClo arity rest body caps) ->
+  exists s1, vm_step limit (mkVM C pc st fs MG) = SNext s1 /\
+             vm_step limit s1 = vm_step limit (mkVM C' pc st fs MG).
+Proof. exact callglobaltail_fusion. Qed.
 
 (* non-vacuity: a tail-recursive loop and a closure-returning program, both modes *)
 Example C01_example_loop :
